@@ -27,6 +27,8 @@ import (
 	"time"
 
 	"github.com/dgraph-io/badger/v4"
+
+	"github.com/mimiro-io/datahub/internal/verifhook"
 )
 
 type fullSyncLease struct {
@@ -243,21 +245,25 @@ func (ds *Dataset) StoreEntities(entities []*Entity) (Error error) {
 		return err
 	}
 
+	verifhook.Point("StoreEntities:before-commitIDTxn")
 	err = ds.store.commitIDTxn()
 	if err != nil {
 		return err
 	}
 
+	verifhook.Point("StoreEntities:before-txnCommit")
 	err = txn.Commit()
 	if err != nil {
 		return err
 	}
 
+	verifhook.Point("StoreEntities:after-txnCommit")
 	err = ds.updateDataset(newitems, entities)
 	if err != nil {
 		return err
 	}
 
+	verifhook.Point("StoreEntities:after-updateDataset")
 	return nil
 }
 
